@@ -67,10 +67,11 @@ type summary struct {
 	Labels   map[string]int
 	Samples  []any
 	Excluded map[string]int
+	Known    map[string]bool
 }
 
 func newSummary() *summary {
-	return &summary{NT: map[string]bool{}, Labels: map[string]int{}, Excluded: map[string]int{}}
+	return &summary{NT: map[string]bool{}, Labels: map[string]int{}, Excluded: map[string]int{}, Known: map[string]bool{}}
 }
 
 func (s *summary) record(key string, nontrivial bool, labels []string, sample any) {
@@ -92,6 +93,17 @@ func (s *summary) record(key string, nontrivial bool, labels []string, sample an
 	}
 }
 
+func (s *summary) addExcluded(ex map[string]int, known map[string]bool) {
+	s.mu.Lock()
+	defer s.mu.Unlock()
+	for k, v := range ex {
+		s.Excluded[k] += v
+	}
+	for k := range known {
+		s.Known[k] = true
+	}
+}
+
 func (s *summary) emit() {
 	s.mu.Lock()
 	defer s.mu.Unlock()
@@ -100,4 +112,7 @@ func (s *summary) emit() {
 		hs = append(hs, k)
 	}
 	EmitStats(map[string]any{"summary": true, "evaluations": s.Evals, "nontrivial_hashes": hs, "labels": s.Labels, "samples": s.Samples, "excluded": s.Excluded})
+	for _, id := range sortedKeys(s.Known) {
+		EmitStats(map[string]any{"known_replay": id})
+	}
 }
